@@ -87,7 +87,7 @@ def c02(w):
             exit_idx[e[0]] = i
     extended = set()
     for c in w.calls:
-        if c["op"] == "extend":
+        if c["op"] == "extend" and not c.get("cross"):   # a doer added from outside the scheduler's own pass keeps enter order
             extended.add(c["owner"])
     cause = "raise" if (w.result or "").startswith("raise") else "return"
     for s, b, e in _windows(w):
@@ -294,9 +294,7 @@ def c05(w):
                 want = True
             else:
                 last = w.decisions[n][-1][1]
-                if last[0] == "done":
-                    want = True
-                elif last[0] == "ret":
+                if last[0] in ("done", "ret"):
                     want = last[1] if last[1] is not None else "falsy"
                 else:
                     want = None
@@ -308,6 +306,10 @@ def c05(w):
                 v.append(("doer-done:self-completed:%s:%r" % (_cls(w, n), want),
                           "doer %s returned %r on its own but done is %r" % (n, want, done)))
         else:
+            if w.kind[n] == "D" and node.always and any(c.get("cross") and c["owner"] == n for c in w.calls):
+                # an always-DoDoer that idled (done True, see below) and was then given a new doer from outside keeps that
+                # value until its next recur; runtime extension is outside this property's quantifier (C06 covers extend)
+                continue
             if w.kind[n] == "D" and node.always and not _alive_kids_at_close(w, n):
                 # an idle always-DoDoer reports done=True while it waits for more doers; hio's own
                 # test_dodoer_always pins that value after a forced close: outside the property's domain
